@@ -75,6 +75,10 @@ def step (t : List String) : String :=
     | some rank, some coll =>
       "ok " ++ ";".intercalate ((Stack.svdPlan rank coll).map fun q => s!"{q.1}:{showList q.2.1}:{q.2.2}")
     | _, _ => "bad-op"
+  | ["collranks", rank, nc, sizes] =>
+    match nat? rank, nat? nc, natList? sizes with
+    | some rank, some nc, some sizes => "ok " ++ showList (sizes.map fun size => Stack.collRank rank size nc)
+    | _, _, _ => "bad-op"
   | ["rollen", n, wl] =>
     match nat? n, nat? wl with
     | some n, some wl =>
